@@ -7,6 +7,7 @@ import GramModel.Lemmas.Parser
 import GramModel.Lemmas.ParserTermination
 import GramModel.Lemmas.ParserNoPanic
 import GramModel.Lemmas.CheckNoPanic
+import GramModel.Lemmas.FrontEnd
 
 /-!
 # C14 — gram handles every input without crashing and reports failure faithfully
@@ -301,3 +302,114 @@ write is followed at once by `exit(1)`, and there is no other exit code.  This i
 `C14_cli_contract` states for the model and the CLI suite observes on the binary. -/
 def C14_cli_streams_tie_stmt : Prop := cliOK Generated.cliEvents = true
 theorem C14_cli_streams_tie : C14_cli_streams_tie_stmt := by unfold C14_cli_streams_tie_stmt; decide +kernel
+
+/-! ## End to end: text → tokens → parse → type check
+
+`frontEnd cc I text ctx` (Lemmas/FrontEnd.lean) is the composition the CLI runs before the type checker: `tokenize cc text`; on
+success every tokenizer token is turned into a parser token (`C10_toPTok I`: the kind by `PModel.kindP I`, where `I` interns
+identifier spellings, the byte range kept) and `PModel.parseModel … ctx` runs the parse phase with the standard fuel, the three
+re-association passes, name resolution and the definition-order check.  Its normal outcomes are `FrontOutcome` = tokenizer
+errors / parser errors / a term; the model's abnormal outcomes (`FrontAbnormal`: a `panic!` of the tokenizer, a `panic!` or
+failed `assert_eq!` of `parse`, the parser model out of fuel) are the `Except.error` side. -/
+
+/-- **The front end is total and reports failure faithfully**, for EVERY classifier (no sanity condition is needed), every
+interner, every text and every context: it never takes an abnormal outcome (no tokenizer panic — `C09_total` —, no parser
+panic — `C14_parse_no_panic`, i.e. `C14_reassoc_no_panic`, panic-free resolution and definition check —, never out of fuel —
+`C14_parse_terminates`), and the outcome is what the stages say: a NON-EMPTY list of unexpected symbols (`C09_err_nonempty`)
+when the tokenizer rejects, a NON-EMPTY list of diagnostics (`C14_parse_err_nonempty`) when the parser rejects the tokens, or
+the term the parser returns.  (The parser half holds for every token array, not only tokenizer output:
+`C14_parse_no_panic`, `C14_parse_err_nonempty`.) -/
+def C14_front_end_total_stmt : Prop :=
+  ∀ (cc : CharClass) (I : List Char → Name) (text : List Char) (ctx : List Name),
+    ∃ o, frontEnd cc I text ctx = .ok o ∧
+      match o with
+      | .lexErrors es => es ≠ [] ∧ tokenize cc text = .err es
+      | .parseErrors es => es ≠ [] ∧
+          ∃ ts, tokenize cc text = .ok ts ∧ PModel.parseModel (ts.map (C10_toPTok I)).toArray ctx = .errors es
+      | .term r =>
+          ∃ ts, tokenize cc text = .ok ts ∧ PModel.parseModel (ts.map (C10_toPTok I)).toArray ctx = .ok r
+theorem C14_front_end_total : C14_front_end_total_stmt := by
+  intro cc I text ctx
+  unfold frontEnd
+  rcases C09_total cc text _ rfl with ⟨ts, h⟩ | ⟨es, h⟩
+  · rw [h]
+    rcases C14_parse_no_panic (ts.map (C10_toPTok I)).toArray ctx with ⟨t, ht⟩ | ⟨es, hes⟩
+    · simp only [ht]
+      exact ⟨_, rfl, ts, rfl, ht⟩
+    · simp only [hes]
+      exact ⟨_, rfl, C14_parse_err_nonempty _ ctx es hes, ts, rfl, hes⟩
+  · rw [h]
+    exact ⟨_, rfl, C09_err_nonempty cc text es h, rfl⟩
+
+/-- **What the front end hands to the type checker is well scoped** in the context it was parsed in (pairwise distinct names,
+none of them `_`; empty for `gram check` / `gram run`): `check_definitions` only appends diagnostics, so a front end that
+answers with a term has resolved every name silently; by `C08_resolve_sound_fixed` the term is then the one the binder-stack
+specification `toDB` prescribes, and `toDB` only produces terms whose variables are below the number of enclosing binders and
+whose holes (`_`, omitted annotations) have their home scope (`toDB_ws`, Lemmas/FrontEnd.lean). -/
+def C14_front_end_scoped_stmt : Prop :=
+  ∀ (cc : CharClass) (I : List Char → Name) (text : List Char) (ctx : List Name) (r : PModel.RTm),
+    ctx.Nodup → (∀ x ∈ ctx, x ≠ PModel.placeholder) →
+    frontEnd cc I text ctx = .ok (.term r) → wellScoped ctx.length r.erase = true
+theorem C14_front_end_scoped : C14_front_end_scoped_stmt :=
+  fun _ _ _ _ _ hnd hph h => frontEnd_term_scoped hnd hph h
+
+/-- **No panic from the text to the end of type checking, on fully annotated programs**: if the front end accepts the text and
+the term it returns is hole-free (every parameter and every definition annotated, no `_` written), the checker model started
+from the initial state (any number of unresolved cells) never panics, whatever the fuel — `C14_front_end_total` (no abnormal
+outcome before), `C14_front_end_scoped` and `C14_infer_no_panic_fixed` composed.  (Without the annotations this is false of the
+code: `C14_infer_panic_unannotated`, finding D18.) -/
+def C14_pipeline_no_panic_annotated_stmt : Prop :=
+  ∀ (cc : CharClass) (I : List Char → Name) (text : List Char) (r : PModel.RTm) (fuel n : Nat) (site : String),
+    frontEnd cc I text [] = .ok (.term r) → r.erase.holeFree = true →
+    inferS fuel r.erase { store := List.replicate n none } ≠ .panic site
+theorem C14_pipeline_no_panic_annotated : C14_pipeline_no_panic_annotated_stmt :=
+  fun cc I text r fuel n site h hf =>
+    C14_infer_no_panic_fixed fuel n r.erase site
+      (C14_front_end_scoped cc I text [] r List.nodup_nil (fun _ hx => nomatch hx) h) hf
+
+/-- … and on EVERY accepted text (annotated or not) the only panic site of the checker model that can be live is the
+`definitions_context[len - 1 - index]` lookup of `normalize_weak_head` (`C14_infer_one_live_site` behind the front end). -/
+def C14_pipeline_one_live_site_stmt : Prop :=
+  ∀ (cc : CharClass) (I : List Char → Name) (text : List Char) (r : PModel.RTm) (fuel : Nat) (σ : List (Option Tm))
+    (site : String), frontEnd cc I text [] = .ok (.term r) →
+    inferS fuel r.erase { store := σ } = .panic site →
+    site = "normalize_weak_head.definitions_context[index]"
+theorem C14_pipeline_one_live_site : C14_pipeline_one_live_site_stmt :=
+  fun cc I text r fuel σ site h hp =>
+    C14_infer_one_live_site fuel r.erase σ site
+      (C14_front_end_scoped cc I text [] r List.nodup_nil (fun _ hx => nomatch hx) h) hp
+
+/-- Non-vacuity, end to end and by kernel evaluation: on the text `((x : int) => x + 1) 2` (classifier `C10_cc`, identifiers
+interned by their length) the front end answers with a term — the hole-free `((x : int) => x + 1) 2` with `x` as de Bruijn
+index 0 —, the checker model accepts it at type `int` without a diagnostic, and the evaluator returns `3`. -/
+example : ∃ r, frontEnd C10_cc List.length FrontEndDemo.text [] = .ok (.term r) ∧
+    r.erase = .app (.lam 1 false .int (.bin .sum (.var 1 0) (.lit 1))) (.lit 2) ∧ r.erase.holeFree = true ∧
+    (match inferS 40 r.erase {} with
+      | .ok (_, ty) s => s.nerrs == 0 && ty == .int
+      | _ => false) = true ∧
+    evalFuel 5 r.erase = .lit 3 := by
+  obtain ⟨r, h1, h2⟩ := FrontEndDemo.frontEnd_text
+  refine ⟨r, h1, h2, ?_, ?_, ?_⟩ <;> rw [h2] <;> decide
+-- the tokenizer-error and parser-error outcomes of `frontEnd` are inhabited too
+example : frontEnd C10_cc List.length ['a', ' ', '$'] [] = .ok (.lexErrors [(2, 3)]) := by
+  have h : tokenize C10_cc ['a', ' ', '$'] = .err [(2, 3)] := by decide +kernel
+  simp only [frontEnd, h]
+example : ∃ es, frontEnd C10_cc List.length [')'] [] = .ok (.parseErrors es) ∧ es ≠ [] := by
+  obtain ⟨o, h, ho⟩ := C14_front_end_total C10_cc List.length [')'] []
+  have ht : tokenize C10_cc [')'] = .ok [⟨.rightParen, 0, 1⟩] := by decide +kernel
+  cases o with
+  | lexErrors es => rw [ht] at ho; cases ho.2
+  | parseErrors es => exact ⟨es, h, ho.1⟩
+  | term r =>
+    obtain ⟨ts, h1, h2⟩ := ho
+    rw [ht] at h1; cases h1
+    unfold PModel.parseModel at h2
+    split at h2
+    · cases h2
+    · rename_i p st hp
+      obtain ⟨p', st', hp', hn⟩ := PModel.runParser_eval
+        ([⟨.rightParen, 0, 1⟩].map (C10_toPTok List.length)).toArray 40 (fun p => p.next) 0 (by decide +kernel)
+      rw [hp] at hp'; cases hp'
+      have := (PModel.finishParse_ok h2).1
+      rw [hn] at this
+      cases this
